@@ -347,11 +347,12 @@ func C18() *sim.Check {
 					}
 				}
 			}
-			seed := uint64(t.Choose(1<<30))<<30 | uint64(t.Choose(1<<30))
-			st := simrt.NewSchedTape(seed, t.Remaining(), t.Replaying())
+			// the scheduler continues the run's own PRNG stream through a norace tape
+			st := simrt.NewSchedTape(t.State(), t.Remaining(), t.Replaying())
 			res := simrt.Run(st, 20_000_000, funcs)
 			wg.Wait()
 			t.Absorb(st.Rec)
+			t.SetState(st.State())
 			if c.St != nil {
 				c.St.Inc("simulations")
 				c.St.Add("tasks", int64(len(tasks)))
